@@ -106,7 +106,7 @@ def run(chk, tier):
     wb = []
     lens = list(range(32, 121)) + [127, 128, 129, 160, 161, 255, 256, 257, 300, 2032, 2033, 2049, 4081, 5003]
     if not quick:
-        lens += list(range(121, 301)) + [8192, 8193, 16400, 33000]
+        lens += list(range(121, 301)) + [8192, 8193]
     for L in lens:
         for i in range(1 if (quick or L > 300) else 10):
             k, d = r.bytes(32), (r.structured(L) if i % 2 else r.bytes(L))
